@@ -50,7 +50,7 @@ RULE = ("complex data x shift m (any integer incl. negative and > NFFT) x every 
         "conj-time-reversal for the invariant estimators; non-trivial = non-constant data, m not a multiple of NFFT; plus shift / mirror on "
         "complex-typed data with zero imaginary part; plus eigenfre.eigen (music / ev) directly: singular values, centred roll / mirror, records beyond the 100-row cap")
 GEN_NAMES = ['table_complete_c04', 'class_rotation', 'class_mirror', 'onesided_is_twice_half', 'onesided_length', 'routing_yule', 'routing_burg',
-             'routing_minvar_mtm_fourier', 'routing_covar_ma', 'class_rotation_subspace', 'class_mirror_subspace', 'routing_subspace']
+             'routing_minvar_mtm_fourier', 'routing_covar_ma', 'class_rotation_subspace', 'class_mirror_subspace', 'routing_subspace', 'correlogram_fold']
 
 PRE_DFT = """From Coq Require Import PrimFloat.
 Require Import Spectrum.Theory.Ops Spectrum.Theory.Vec Spectrum.Theory.Dft Spectrum.Instances.FloatC Spectrum.Instances.FloatTw Spectrum.Instances.QcC.
@@ -84,6 +84,24 @@ Definition ma_case tol (x : list QcC) (Q M : nat) (outcome : nat) (ib : list QcC
   | inl MaSingular => Nat.eqb outcome 3
   | inr (b, rho) => Nat.eqb outcome 0 && qcc_close_rel tol (dy 1 0) b ib && qcc_close_rel tol (dy 1 0) [rho] [irho]
   end.
+"""
+
+PRE_FBM = """Require Import Spectrum.Theory.Ops Spectrum.Theory.Vec Spectrum.Theory.Dft Spectrum.Model.Eigen Spectrum.Proofs.ShiftTheory
+               Spectrum.Proofs.ShiftDft_C04 Spectrum.Proofs.ShiftEigen_C04 Spectrum.Instances.QcC Spectrum.Instances.QcCTw.
+From Coq Require Import QArith Qcanon.
+Local Open Scope Z_scope.
+(* the data matrix eigen() hands to svd for the modulated record against D_rows FB(x) D_cols of theorem eigen_fb_modulation, and for the
+   conjugated record against conj FB(x) of theorem eigen_fb_conj -- FB(x) is the model's matrix of the UNtransformed record; zero tolerance *)
+Definition fbmod_case (m : Z) (x : list QcC) (P : nat) (ifb : list (list QcC)) : bool :=
+  let fb := @fb_matrix _ qcc_ops x P in
+  let phi := @sphase _ tw4 m in
+  Nat.eqb (length fb) (length ifb) &&
+  forallb (fun r => qcc_close_list (dy 0 0)
+                      (@mk _ P (fun k => @mul _ qcc_ops (@mul _ qcc_ops (@fb_rowphase _ phi x P r) (@mat _ qcc_ops fb r k)) (phi (- Z.of_nat k))))
+                      (nth r ifb [])) (seq 0 (length fb)).
+Definition fbconj_case (x : list QcC) (P : nat) (ifb : list (list QcC)) : bool :=
+  let fb := @fb_matrix _ qcc_ops x P in
+  Nat.eqb (length fb) (length ifb) && forallb (fun p => qcc_close_list (dy 0 0) (@vconj _ qcc_ops (fst p)) (snd p)) (combine fb ifb).
 """
 
 TIME_REVERSAL_INVARIANT = ['Periodogram', 'pcorrelogram', 'pyule', 'pburg', 'pmodcovar', 'MultiTapering', 'pminvar']
@@ -368,6 +386,46 @@ def run(ctx):
         if what is not None:
             ctx.violation('%s/%s/%s' % (clause, cls, 'NFFT-even' if NFFT % 2 == 0 else 'NFFT-odd'),
                           '%s (%s, NFFT=%d, complex dtype with zero imaginary part): %s' % (cls, clause, NFFT, what), rep)
+
+    # ---------------- the data matrix eigen() hands to numpy's svd at the modulated / conjugated record (observed through spectrum.eigenfre.svd)
+    # against the right-hand sides of theorems eigen_fb_modulation / eigen_fb_conj evaluated on the model's matrix of the ORIGINAL record
+    # (exact, period-4 character); numpy's factorisation of the transformed matrix is checked against the SVD specification the
+    # *_any_svd theorems assume, and its singular values against those of the original matrix (singular_values_shift / _conj)
+    from props import C17 as K17
+    from spectrum.eigenfre import eigen as eigen_impl
+    cases = []; meta = []
+    shapes = [(5, 2), (7, 3), (9, 3), (10, 4), (14, 5), (13, 6)] + [(104, 3), (109, 2)][:ctx.q(1, 2)]
+    for (N, P) in shapes:
+        for kind in ('mod', 'conj'):
+            x = K17.lowbit(rng, N, True)
+            m = int(rng.choice([1, 2, 3, -1, -3, 5, -6]))
+            xt = x * np.array([(-1j) ** ((-m * j) % 4) for j in range(N)]) if kind == 'mod' else np.conj(x)
+            with K17.Tap() as tap0:
+                eigen_impl(x, P, NSIG=0, NFFT=max(P, 4))
+            with K17.Tap() as tap:
+                eigen_impl(xt, P, NSIG=0, NFFT=max(P, 4))
+            if tap.fb is None or tap0.fb is None:
+                if not any('cannot be observed' in b.get('theorem', '') for b in ctx.broken):
+                    ctx.broken.append({'theorem': 'correspondence: FB matrix at the transformed record (eigen() no longer hands a data matrix to spectrum.eigenfre.svd: it cannot be observed)',
+                                       'where': 'eigenfre.eigen', 'log': ''})
+                continue
+            rows = '[%s]' % '; '.join(czl(row) for row in tap.fb)
+            cases.append('fbmod_case (%d) %s %d%%nat %s' % (m, czl(x), P, rows) if kind == 'mod' else 'fbconj_case %s %d%%nat %s' % (czl(x), P, rows))
+            meta.append({'function': 'eigen (FB passed to svd) at the %s record' % ('modulated' if kind == 'mod' else 'conjugated'), 'x': vlib.hexv(x), 'P': P, 'N': N, 'm': m})
+            ctx.count('corr/fb-transformed/%s/%s' % (kind, 'row-cap' if N - P > 100 else 'full'))
+            ctx.case(('fbt', kind, x.tobytes(), P, m), nontrivial=(P >= 2 and (kind == 'conj' or m % 4 != 0)),
+                     sample={'function': 'FB matrix at the transformed record', 'kind': kind, 'N': N, 'P': P, 'm': m})
+            if not K17.svd_spec_ok(tap.fb, tap.S, tap.Vh):
+                ctx.broken.append({'theorem': 'svd-specification at the transformed record (numpy result does not meet S sorted / V unitary / FB^H FB V = V S^2)',
+                                   'where': 'N=%d P=%d %s' % (N, P, kind), 'log': ''})
+            if tap.S.shape != tap0.S.shape or not np.allclose(tap.S, tap0.S, rtol=0, atol=1e-9 * max(float(tap0.S[0]), 1e-300)):
+                ctx.violation('singular-values/eigen/%s' % kind, 'eigenfre.eigen: the singular values of the data matrix of the %s record differ from those of the record (N=%d, P=%d)'
+                              % ('modulated' if kind == 'mod' else 'conjugated', N, P),
+                              {'clause': 'eigen-shift' if kind == 'mod' else 'eigen-mirror', 'estimator': 'eigenfre.eigen', 'cfg': {'method': 'music', 'P': P, 'NSIG': 1},
+                               'NFFT': 4 * max(P, 1), 'm': m * max(P, 1), 'x': vlib.hexv(x), 'datatype': 'complex'})   # exp(2 pi i (m P) n / (4 P)) = the period-4 character
+    for i in ctx.coq_cases('c04_fb_transformed', PRE_FBM, cases, shard=6,
+                           descr='FB matrix handed to svd at the modulated / conjugated record vs D_rows FB(x) D_cols / conj FB(x) over Model.Eigen.fb_matrix at QcC, zero tolerance'):
+        ctx.corr_disagreement('fb_matrix (transformed record)', i, meta[i])
 
     # ---------------- eigenfre.eigen() itself (music / ev, centred layout): the singular values are invariant and the returned vector is
     # rolled by m bins / mirrored about the centre bin -- for whatever factorisation numpy's svd returns on the transformed matrix
